@@ -27,6 +27,7 @@ import (
 	"strconv"
 	"strings"
 
+	ml "github.com/IBM/mathlib"
 	"github.com/btcsuite/btcd/btcec"
 	tinkaead "github.com/google/tink/go/aead"
 	aeadsubtle "github.com/google/tink/go/aead/subtle"
@@ -35,6 +36,7 @@ import (
 	tinksubtle "github.com/google/tink/go/signature/subtle"
 	"golang.org/x/crypto/chacha20poly1305"
 
+	"github.com/hyperledger/aries-framework-go/component/kmscrypto/crypto/primitive/bbs12381g2pub"
 	"github.com/hyperledger/aries-framework-go/component/kmscrypto/crypto/tinkcrypto"
 	secpsubtle "github.com/hyperledger/aries-framework-go/component/kmscrypto/crypto/tinkcrypto/primitive/secp256k1/subtle"
 	"github.com/hyperledger/aries-framework-go/component/kmscrypto/doc/jose/jwk/jwksupport"
@@ -816,7 +818,7 @@ func (e *env) runSig(kind string, ktIdx int, kt string, nKeys int, full bool) {
 
 	for ki := 0; ki < nKeys; ki++ {
 		r := e.rng.Fork(uint64(7000 + 100*ktIdx + ki))
-		created := ki%3 != 2 // every third key is an imported private key (where possible)
+		created := ki%2 == 0 // every second key is an imported private key (where possible)
 
 		sk, err := e.makeSigKey(a, b, kt, created)
 		if err != nil && !created {
@@ -1149,7 +1151,7 @@ func (e *env) runAead(kind, kt string, nLineages int, aeadTypes []string) {
 			dec := stages[len(stages)-1]
 			e.aeadCase(kind, kt, enc, dec, "aad", Alt{}, msg, aad, true)
 
-			if i == 0 || li == 0 {
+			if i == 0 {
 				for _, al := range edits(r, 12, true) {
 					e.aeadCase(kind, kt, enc, dec, "nonce", al, msg, aad, true)
 				}
@@ -1164,57 +1166,160 @@ func (e *env) runAead(kind, kt string, nLineages int, aeadTypes []string) {
 
 // ---------- MAC ----------
 
+// coqIDPts prints the keys of a handle as a Coq list of (Tink key id, prefix type).
+func coqIDPts(kh *keyset.Handle) string {
+	var es []string
+	for _, ki := range kh.KeysetInfo().KeyInfo {
+		es = append(es, fmt.Sprintf("(%d, %s)", ki.KeyId, coqPT(ki.OutputPrefixType)))
+	}
+
+	return hx.CoqList(es)
+}
+
+// rotations creates a key of type kt and rotates it n times; it returns the handle of every stage.
+func rotations(k *localkms.LocalKMS, kt string, n int) ([]*keyset.Handle, string, error) {
+	kid, h, err := k.Create(kms.KeyType(kt))
+	if err != nil {
+		return nil, "", err
+	}
+
+	stages := []*keyset.Handle{h.(*keyset.Handle)} //nolint:forcetypeassert
+
+	for i := 0; i < n; i++ {
+		nid, nh, e2 := k.Rotate(kms.KeyType(kt), kid)
+		if e2 != nil {
+			return nil, "", fmt.Errorf("rotate: %w", e2)
+		}
+
+		kid = nid
+		stages = append(stages, nh.(*keyset.Handle)) //nolint:forcetypeassert
+	}
+
+	return stages, kid, nil
+}
+
+// runMac: lineages of HMAC keys with 0..3 rotations; a MAC computed under every stage is verified under every stage.
 func (e *env) runMac(kind, kt string, nKeys int) {
 	a := &party{newKMS()}
 
 	for ki := 0; ki < nKeys; ki++ {
 		r := e.rng.Fork(uint64(11000 + ki))
 
-		_, h, err := a.kms.Create(kms.KeyType(kt))
+		stages, _, err := rotations(a.kms, kt, 1+r.Intn(3))
 		if err != nil {
 			e.tr.Put(&hx.Record{Kind: kind, Oracle: "fail", Sig: "mac:" + kt + ":create", Detail: err.Error(), Case: Case{Group: "mac", KT: kt}, Class: "mac/create-fail"})
 			return
 		}
 
 		_, h2, _ := a.kms.Create(kms.KeyType(kt))
-		kh, okh := h.(*keyset.Handle), h2.(*keyset.Handle) //nolint:forcetypeassert
-		data := e.msgOf(r)
+		okh := h2.(*keyset.Handle) //nolint:forcetypeassert
 
-		tag, err := e.crypto.ComputeMAC(data, kh)
+		for si, kh := range stages {
+			data := e.msgOf(r)
+
+			tag, err := e.crypto.ComputeMAC(data, kh)
+			if err != nil {
+				e.tr.Put(&hx.Record{Kind: kind, Oracle: "fail", Sig: "mac:" + kt + ":compute", Detail: err.Error(), Case: Case{Group: "mac", KT: kt}, Class: "mac/compute-fail"})
+				return
+			}
+
+			id, pt := primaryInfo(kh)
+
+			probe := func(vh *keyset.Handle, vname string, odata bool, al Alt) {
+				dd, tg := data, al.apply(tag)
+				if odata {
+					dd = append(append([]byte{}, data...), 'x')
+				}
+
+				verr := e.crypto.VerifyMAC(tg, dd, vh)
+				acc := verr == nil
+				want := hasKey(vh, id) && !odata && !al.on()
+
+				rec := &hx.Record{Kind: kind, Oracle: "ok",
+					Case:     Case{Group: "mac", KT: kt, Variant: fmt.Sprintf("stage=%d/verifier=%s/odata=%v/alt=%s@%d", si, vname, odata, al.Kind, al.Pos)},
+					Observed: map[string]interface{}{"accepted": acc, "taglen": len(tag), "err": fmt.Sprint(verr)},
+					Class:    fmt.Sprintf("mac/%d/%s/%v/%s/%v/%d", si, vname, odata, al.Kind, acc, len(data)),
+					Dist:     []string{"group=mac", "kt=" + kt, fmt.Sprintf("accepted=%v", acc), "alt=" + al.Kind, "verifier=" + vname},
+					Coq: fmt.Sprintf("CMac (%d, %s) %s %s %s %s %s", id, coqPT(pt), coqIDPts(vh), hx.CoqBool(odata), al.coq(), coqBytes(tag),
+						hx.CoqBool(acc)),
+				}
+
+				if acc != want {
+					what := "accepts-altered"
+					if want {
+						what = "rejects-genuine"
+					}
+
+					rec.Oracle, rec.Sig = "fail", "mac:"+kt+":"+what
+					rec.Detail = fmt.Sprintf("MAC of stage %d verified by %s (%d keys) odata=%v alt=%s@%d: accepted=%v (%v)", si, vname,
+						len(vh.KeysetInfo().KeyInfo), odata, al.Kind, al.Pos, acc, verr)
+				}
+
+				e.tr.Put(rec)
+			}
+
+			for sj, vh := range stages {
+				probe(vh, fmt.Sprintf("stage%d", sj), false, Alt{})
+			}
+
+			last := stages[len(stages)-1]
+			probe(okh, "otherkey", false, Alt{})
+			probe(last, "last", true, Alt{})
+
+			if si == 0 || si == len(stages)-1 {
+				for _, al := range edits(r, len(tag), si == 0) {
+					probe(last, "last", false, al)
+				}
+			}
+		}
+	}
+}
+
+// runSigRot: a signing key rotated 1-2 times: signatures of every stage verify with the public handle of every later
+// stage and with nothing that lacks the key.
+func (e *env) runSigRot(kind string, ktIdx int, kt string) {
+	a := &party{newKMS()}
+	r := e.rng.Fork(uint64(15000 + ktIdx))
+
+	stages, _, err := rotations(a.kms, kt, 1+r.Intn(2))
+	if err != nil {
+		e.tr.Put(&hx.Record{Kind: kind, Oracle: "fail", Sig: "sig:" + kt + ":rotate", Detail: err.Error(), Case: Case{Group: "sigrot", KT: kt}, Class: "sigrot/rotate-fail/" + kt})
+		return
+	}
+
+	for si, kh := range stages {
+		msg := e.msgOf(r)
+
+		sig, err := e.sign(kt, kh, msg)
 		if err != nil {
-			e.tr.Put(&hx.Record{Kind: kind, Oracle: "fail", Sig: "mac:" + kt + ":compute", Detail: err.Error(), Case: Case{Group: "mac", KT: kt}, Class: "mac/compute-fail"})
+			e.tr.Put(&hx.Record{Kind: kind, Oracle: "fail", Sig: "sig:" + kt + ":sign-rotated", Detail: err.Error(), Case: Case{Group: "sigrot", KT: kt}, Class: "sigrot/sign-fail/" + kt})
 			return
 		}
 
 		id, pt := primaryInfo(kh)
 
-		probe := func(okey, odata bool, al Alt) {
-			alt, pos := al.on(), al.Pos
-
-			vh, dd, tg := kh, data, tag
-			if okey {
-				vh = okh
+		probe := func(sj int, omsg bool, al Alt) {
+			pub, perr := stages[sj].Public()
+			if perr != nil {
+				return
 			}
 
-			if odata {
-				dd = append(append([]byte{}, data...), 'x')
+			m := msg
+			if omsg {
+				m = append(append([]byte{}, msg...), 'x')
 			}
 
-			if alt {
-				tg = al.apply(tag)
-			}
-
-			verr := e.crypto.VerifyMAC(tg, dd, vh)
+			verr := e.verify(kt, pub, al.apply(sig), m)
 			acc := verr == nil
-			want := !okey && !odata && !alt
+			want := hasKey(pub, id) && !omsg && !al.on()
 
 			rec := &hx.Record{Kind: kind, Oracle: "ok",
-				Case:     Case{Group: "mac", KT: kt, Variant: fmt.Sprintf("okey=%v/odata=%v/alt=%v@%d", okey, odata, alt, pos)},
-				Observed: map[string]interface{}{"accepted": acc, "taglen": len(tag)},
-				Class:    fmt.Sprintf("mac/%v/%v/%s/%v/%d", okey, odata, al.Kind, acc, len(data)),
-				Dist:     []string{"group=mac", "kt=" + kt, fmt.Sprintf("accepted=%v", acc), fmt.Sprintf("altered=%v", alt)},
-				Coq: fmt.Sprintf("CMac %d %s %s %s %s %s %s", id, coqPT(pt), hx.CoqBool(okey), hx.CoqBool(odata), al.coq(), coqBytes(tag),
-					hx.CoqBool(acc)),
+				Case:     Case{Group: "sigrot", KT: kt, Variant: fmt.Sprintf("signed=stage%d/verified=stage%d/omsg=%v/alt=%s@%d", si, sj, omsg, al.Kind, al.Pos)},
+				Observed: map[string]interface{}{"accepted": acc, "err": fmt.Sprint(verr)},
+				Class:    fmt.Sprintf("sigrot/%s/%d/%d/%v/%s/%v", kt, si, sj, omsg, al.Kind, acc),
+				Dist:     []string{"group=sigrot", "kt=" + kt, fmt.Sprintf("accepted=%v", acc), "alt=" + al.Kind},
+				Coq: fmt.Sprintf("CSigKs %d%%nat (%d, %s) %s %s %s %s %s", ktIdx, id, coqPT(pt), coqIDPts(pub), hx.CoqBool(omsg), al.coq(),
+					coqBytes(sig), hx.CoqBool(acc)),
 			}
 
 			if acc != want {
@@ -1223,20 +1328,255 @@ func (e *env) runMac(kind, kt string, nKeys int) {
 					what = "rejects-genuine"
 				}
 
-				rec.Oracle, rec.Sig, rec.Detail = "fail", "mac:"+kt+":"+what, fmt.Sprintf("okey=%v odata=%v alt=%v@%d accepted=%v", okey, odata, alt, pos, acc)
+				rec.Oracle, rec.Sig = "fail", "sig:"+kt+":rotated:"+what
+				rec.Detail = fmt.Sprintf("%s signature of stage %d verified with the public keyset of stage %d omsg=%v alt=%s@%d: accepted=%v (%v)",
+					kt, si, sj, omsg, al.Kind, al.Pos, acc, verr)
 			}
 
 			e.tr.Put(rec)
 		}
 
-		probe(false, false, Alt{})
-		probe(true, false, Alt{})
-		probe(false, true, Alt{})
+		for sj := range stages {
+			probe(sj, false, Alt{})
+		}
 
-		for _, al := range edits(r, len(tag), true) {
-			probe(false, false, al)
+		probe(len(stages)-1, true, Alt{})
+
+		for _, al := range edits(r, len(sig), false) {
+			probe(len(stages)-1, false, al)
 		}
 	}
+}
+
+// ---------- BBS+ multi-message signatures over long message vectors ----------
+
+func (e *env) runBbs(kind string, nMsgs int, nGen int) {
+	kt := kms.BLS12381G2
+	a, b := &party{newKMS()}, &party{newKMS()}
+	r := e.rng.Fork(17000 + uint64(nMsgs))
+
+	fail := func(sig, detail string) {
+		e.tr.Put(&hx.Record{Kind: kind, Oracle: "fail", Sig: sig, Detail: detail, Case: Case{Group: "bbs", KT: kt, Variant: strconv.Itoa(nMsgs)}, Class: "bbs/fail/" + sig})
+	}
+
+	kid, h, err := a.kms.Create(kms.KeyType(kt))
+	if err != nil {
+		fail("bbs:create", err.Error())
+		return
+	}
+
+	pb, _, err := a.kms.ExportPubKeyBytes(kid)
+	if err != nil {
+		fail("bbs:export", err.Error())
+		return
+	}
+
+	ih, err := b.kms.PubKeyBytesToHandle(pb, kms.KeyType(kt))
+	if err != nil {
+		fail("bbs:import", err.Error())
+		return
+	}
+
+	// the REAL generators h0, h_1..h_n of this key (verif hook): identity classes, and pairwise distinctness
+	classesOf := func(n int) ([]int, int) {
+		h0, hs, gerr := bbs12381g2pub.VerifGenerators(pb, n)
+		if gerr != nil {
+			fail("bbs:generators", gerr.Error())
+			return nil, 0
+		}
+
+		first := map[string]int{}
+		classes := make([]int, 0, n+1)
+		repeats := 0
+
+		for i, g := range append([]*ml.G1{h0}, hs...) {
+			k := string(g.Bytes())
+			if f, ok := first[k]; ok {
+				classes = append(classes, f)
+				repeats++
+			} else {
+				first[k] = i
+				classes = append(classes, i)
+			}
+		}
+
+		return classes, repeats
+	}
+
+	if nGen > nMsgs {
+		_, rep := classesOf(nGen)
+		rec := &hx.Record{Kind: kind, Oracle: "ok", Case: Case{Group: "bbs", KT: kt, Variant: fmt.Sprintf("generators/%d", nGen)},
+			Observed: map[string]interface{}{"generators": nGen + 1, "repeats": rep}, Class: fmt.Sprintf("bbs/generators/%d/%d", nGen, rep),
+			Dist: []string{"group=bbs", "bbs=generators"}}
+
+		if rep != 0 {
+			rec.Oracle, rec.Sig, rec.Detail = "fail", "bbs:generators-repeat", fmt.Sprintf("%d of the %d generators h0,h_1.. of a key equal an earlier one", rep, nGen+1)
+		}
+
+		e.tr.Put(rec)
+	}
+
+	classes, rep := classesOf(nMsgs)
+	if classes == nil {
+		return
+	}
+
+	if rep != 0 {
+		fail("bbs:generators-repeat", fmt.Sprintf("%d of the %d generators h0,h_1.. of a key equal an earlier one", rep, nMsgs+1))
+	}
+
+	// messages: distinct, except that positions 2 and 5 carry the same message
+	msgs := make([][]byte, nMsgs)
+	ids := make([]int, nMsgs)
+
+	for i := range msgs {
+		msgs[i] = append([]byte(fmt.Sprintf("msg-%d-", i)), r.Bytes(4)...)
+		ids[i] = i + 10
+	}
+
+	if nMsgs > 5 {
+		msgs[5], ids[5] = msgs[2], ids[2]
+	}
+
+	sig, err := e.crypto.SignMulti(msgs, h)
+	if err != nil {
+		fail("bbs:sign", err.Error())
+		return
+	}
+
+	coqVec := func(v []int) string {
+		xs := make([]string, 0, len(v)+1)
+		xs = append(xs, "1%Z") // the blinding factor s at position 0
+
+		for _, x := range v {
+			xs = append(xs, fmt.Sprintf("%d%%Z", x))
+		}
+
+		return hx.CoqList(xs)
+	}
+
+	coqNats := func(v []int) string {
+		xs := make([]string, len(v))
+		for i, x := range v {
+			xs[i] = fmt.Sprintf("%d%%nat", x)
+		}
+
+		return hx.CoqList(xs)
+	}
+
+	probe := func(what string, pm [][]byte, pids []int, useImport bool) {
+		vh := ih.(*keyset.Handle) //nolint:forcetypeassert
+		if !useImport {
+			vh, _ = h.(*keyset.Handle).Public() //nolint:forcetypeassert
+		}
+
+		verr := e.crypto.VerifyMulti(pm, sig, vh)
+		acc := verr == nil
+		same := len(pids) == len(ids)
+
+		for i := 0; same && i < len(ids); i++ {
+			same = pids[i] == ids[i]
+		}
+
+		rec := &hx.Record{Kind: kind, Oracle: "ok",
+			Case:     Case{Group: "bbs", KT: kt, Variant: fmt.Sprintf("%d/%s", nMsgs, what)},
+			Observed: map[string]interface{}{"accepted": acc, "messages": nMsgs, "err": fmt.Sprint(verr)},
+			Class:    fmt.Sprintf("bbs/%d/%s/%v", nMsgs, strings.SplitN(what, "@", 2)[0], acc),
+			Trivial:  what == "genuine",
+			Dist:     []string{"group=bbs", "bbs=" + strings.SplitN(what, "@", 2)[0], fmt.Sprintf("accepted=%v", acc), fmt.Sprintf("messages=%d", nMsgs)},
+		}
+
+		if len(pids) == len(ids) && nMsgs <= 2000 {
+			rec.Coq = fmt.Sprintf("CBbs %s %s %s %s", coqNats(classes), coqVec(ids), coqVec(pids), hx.CoqBool(acc))
+		}
+
+		if acc != same {
+			w := "accepts-other-messages"
+			if same {
+				w = "rejects-genuine"
+			}
+
+			rec.Oracle, rec.Sig = "fail", "bbs:"+w
+			rec.Detail = fmt.Sprintf("SignMulti over %d messages, VerifyMulti of the list with %s: accepted=%v (%v)", nMsgs, what, acc, verr)
+		}
+
+		e.tr.Put(rec)
+	}
+
+	swapped := func(i, j int) ([][]byte, []int) {
+		pm, pi := append([][]byte{}, msgs...), append([]int{}, ids...)
+		pm[i], pm[j] = pm[j], pm[i]
+		pi[i], pi[j] = pi[j], pi[i]
+
+		return pm, pi
+	}
+
+	probe("genuine", msgs, ids, true)
+
+	if nMsgs <= 5000 {
+		probe("genuine", msgs, ids, false)
+	}
+
+	// exchanged positions: neighbours, far apart, equal messages (2,5), positions congruent modulo 256 and 65536, random
+	var pairs [][2]int
+
+	add := func(i, j int) {
+		if i >= 0 && j >= 0 && i < nMsgs && j < nMsgs && i != j {
+			pairs = append(pairs, [2]int{i, j})
+		}
+	}
+
+	add(0, 1)
+	add(2, 5)
+	add(0, nMsgs-1)
+	add(nMsgs-2, nMsgs-1)
+
+	for _, m := range []int{256, 255, 257, 65536} {
+		add(0, m)
+		add(1, 1+m)
+
+		if nMsgs > m {
+			k := r.Intn(nMsgs - m)
+			add(k, k+m)
+		}
+	}
+
+	for t := 0; t < 4; t++ {
+		add(r.Intn(nMsgs), r.Intn(nMsgs))
+	}
+
+	huge := nMsgs > 5000
+	if huge {
+		pairs = nil
+		add(0, 65536)
+		add(1, 257)
+	}
+
+	for pi, pr := range pairs {
+		pm, pids := swapped(pr[0], pr[1])
+		probe(fmt.Sprintf("swap@%d,%d", pr[0], pr[1]), pm, pids, pi%2 == 0)
+	}
+
+	// one message replaced (first, last, beyond 256), dropped, appended
+	for _, pos := range []int{0, nMsgs - 1, nMsgs / 2, 256, 300} {
+		if pos >= nMsgs || (huge && pos != nMsgs-1) {
+			continue
+		}
+
+		pm, pids := append([][]byte{}, msgs...), append([]int{}, ids...)
+		pm[pos], pids[pos] = []byte("another message"), 7
+		probe(fmt.Sprintf("replace@%d", pos), pm, pids, pos%2 == 0)
+	}
+
+	if huge {
+		return
+	}
+
+	if nMsgs > 1 {
+		probe("drop-last", msgs[:nMsgs-1], ids[:nMsgs-1], true)
+	}
+
+	probe("append", append(append([][]byte{}, msgs...), []byte("extra")), append(append([]int{}, ids...), 8), true)
 }
 
 // ---------- key wrapping (ECDH-ES / ECDH-1PU KW key types): wrap to the EXPORTED public key, unwrap with the handle ----------
@@ -1406,6 +1746,15 @@ func (e *env) runGroup(kind string, c Case) {
 		e.runMac(kind, c.KT, 2)
 	case "kw":
 		e.runKW(kind, c.KT, 1)
+	case "sigrot":
+		e.runSigRot(kind, e.idx(c.KT), c.KT)
+	case "bbs":
+		n, _ := strconv.Atoi(strings.SplitN(c.Variant, "/", 2)[0])
+		if n <= 0 {
+			n = 260
+		}
+
+		e.runBbs(kind, n, 0)
 	case "codec", "decode":
 		for _, cd := range codecs() {
 			if cd.name != c.Enc {
@@ -1481,7 +1830,7 @@ func main() {
 		e.runGroup("corpus:"+filepath.Base(f), cf.Case)
 	}
 
-	nCodec, nSigKeys, nLin, nMac := 30, 3, 4, 2
+	nCodec, nSigKeys, nLin, nMac := 30, 2, 4, 2
 	if args.Tier == "thorough" {
 		nCodec, nSigKeys, nLin, nMac = 600, 40, 40, 30
 	}
@@ -1497,6 +1846,24 @@ func main() {
 
 	for _, i := range sigs {
 		e.runSig("sig", i, e.names[i], nSigKeys, true)
+		e.runSigRot("sigrot", i, e.names[i])
+	}
+
+	// BBS+ multi-message signatures: short vectors and vectors longer than 256 (thorough: longer than 65536)
+	bbsSizes, bbsGen := []int{1, 3, 8, 258 + int(e.rng.Fork(17).U64()%40)}, 1100
+	if args.Tier == "thorough" {
+		bbsSizes, bbsGen = append(bbsSizes, 513+int(e.rng.Fork(18).U64()%100), 65538), 66000
+	}
+
+	if e.idx(kms.BLS12381G2) >= 0 {
+		for bi, n := range bbsSizes {
+			g := 0
+			if bi == 0 {
+				g = bbsGen
+			}
+
+			e.runBbs("bbs", n, g)
+		}
 	}
 
 	for _, i := range aeads {
